@@ -27,6 +27,9 @@ type c12Case struct {
 	Files    []c12File `json:"files"`
 	Spelling int       `json:"spelling"`
 	RootName string    `json:"root"`
+	// Pre documents are added with AddContent before LoadLicenses is called (a classifier that already holds
+	// documents: a second corpus directory, in-house licenses added first); the reference gets them the same way.
+	Pre int `json:"pre,omitempty"`
 }
 
 var c12DirNames = []string{"License", "Header", "Supplement", "MIT", "Apache-2.0", "a", "b.c", "xtxt", "notes.txt", "v 1", "ünï", "Licen%E7a"}
@@ -71,6 +74,9 @@ func c12Gen(t *rapid.T) interface{} {
 			p = append(p, lib.PickStr(t, c12FileNames, "file"))
 		}
 		c.Files = append(c.Files, c12File{Path: p, Content: lib.IntN(t, 0, 7, "content")})
+	}
+	if lib.IntN(t, 0, 2, "preloaded") == 0 {
+		c.Pre = lib.IntN(t, 1, 2, "pre")
 	}
 	return c
 }
@@ -200,6 +206,14 @@ func c12Check(ci interface{}) lib.Outcome {
 	}
 	loaded := NewClassifier(0.8)
 	loaded.SetTraceConfiguration(&TraceConfiguration{Tracer: func(string, ...interface{}) {}})
+	preDocs := []corpusFile{{"Custom", "Inhouse-One", "v1.txt", []byte("this in house agreement grants the licensee a perpetual worldwide right to evaluate the enclosed materials for internal purposes only")},
+		{"Custom", "Inhouse-Two", "v2.txt", []byte(contents[1])}}
+	if c.Pre < 0 || c.Pre > len(preDocs) {
+		return lib.Outcome{Skip: "malformed"}
+	}
+	for _, f := range preDocs[:c.Pre] {
+		loaded.AddContent(f.Cat, f.Name, f.Variant, f.Content)
+	}
 	err := loaded.LoadLicenses(arg) // a panic is recovered by the runner and reported with this case
 	os.Chdir(cwd)
 	if err != nil {
@@ -210,6 +224,10 @@ func c12Check(ci interface{}) lib.Outcome {
 	stray := false
 	ref := NewClassifier(0.8)
 	wantKeys := map[string]bool{}
+	for _, f := range preDocs[:c.Pre] {
+		ref.AddContent(f.Cat, f.Name, f.Variant, f.Content)
+		wantKeys[ref.generateDocName(f.Cat, f.Name, f.Variant)] = true
+	}
 	for _, f := range files {
 		isTxt := strings.HasSuffix(f.rel[len(f.rel)-1], "txt")
 		switch {
@@ -229,6 +247,9 @@ func c12Check(ci interface{}) lib.Outcome {
 		}
 	}
 	classes := []string{"spelling-" + sp}
+	if c.Pre > 0 {
+		classes = append(classes, "classifier-held-documents-before")
+	}
 	if stray {
 		classes = append(classes, "stray-files")
 	}
@@ -248,6 +269,13 @@ func c12Check(ci interface{}) lib.Outcome {
 		}
 		if ld.Norm != rd.Norm || len(ld.Tokens) != len(rd.Tokens) {
 			return lib.Outcome{Violation: fmt.Sprintf("%s: document %q has different content than AddContent gives", desc(), k)}
+		}
+	}
+	// what was there before is still found
+	for _, f := range preDocs[:c.Pre] {
+		p := []byte(oovBlock(ref, 20, 3, 1) + string(f.Content) + "\n")
+		if a, b := loaded.Match(p), ref.Match(p); resultString(a) != resultString(b) {
+			return lib.Outcome{Violation: fmt.Sprintf("%s after AddContent of %d documents: Match on the text of %s differs from the AddContent-built classifier\n%s", desc(), c.Pre, f.key(), diffResults(b, a))}
 		}
 	}
 	// identical Match results on probes: each file's content in context, and an edited variant
